@@ -215,6 +215,7 @@ class Scanner:
         self.option_writes = []    # (fn, option key or "?")
         self.normalisations = []   # (fn, key): creation of the empty default of an absent user key
         self.stack = []
+        self.ret_cache = {}
         self.config = None
         self.comp_classes = self.S.component_classes()
         if len(self.comp_classes) < 10:
@@ -465,6 +466,10 @@ class Scanner:
         if key in self.stack:
             return frozenset()
         sub = self.bind(fn, recv, call, env)
+        ck = (fn.qual, recv, tuple(sorted(sub.aliases.items())), repr(sorted(sub.consts.items(), key=repr)),
+              sub.net, tuple(sub.kwkeys or ()), repr(sorted(self.config.items())))
+        if ck in self.ret_cache:
+            return self.ret_cache[ck]
         self.stack.append(key)
         try:
             saved = (list(self.alias_writes), {k: {"reads": set(v["reads"]), "writes": set(v["writes"]),
@@ -473,7 +478,8 @@ class Scanner:
             self.alias_writes, self.reach = saved
         finally:
             self.stack.pop()
-        return frozenset(sub.returned)
+        self.ret_cache[ck] = frozenset(sub.returned)
+        return self.ret_cache[ck]
 
     def expr(self, e, env):
         """events of evaluating e (reads of net keys, calls), in evaluation order"""
